@@ -3,8 +3,8 @@ SPEC = dict(
     title="CDC events describe exactly the rows changed",
     pkg="./db", files=["db/c27_verif_test.go"],
     rule="generated write programs (3-7 requests: single statement, several autocommit statements, transaction flag, explicit BEGIN..COMMIT/ROLLBACK "
-         "inside a plain request) over items(id INTEGER PRIMARY KEY, name TEXT UNIQUE, qty INTEGER, price REAL, data BLOB, note), logs(msg TEXT NOT NULL, lvl) "
-         "and aux_tbl, multi-row INSERT [OR IGNORE|FAIL|REPLACE], range UPDATE (also of the rowid), DELETE, values of all five storage classes, "
+         "inside a plain request) over five tables of widths 6/4/3/2/2 (items(id INTEGER PRIMARY KEY, name TEXT UNIQUE, qty INTEGER, price REAL, data BLOB, note), ledger, big_tbl, logs(msg TEXT NOT NULL, lvl), "
+         "aux_tbl; every program first changes all of them widest first, and every filter that selects more than one table selects two widths), multi-row INSERT [OR IGNORE|FAIL|REPLACE], range UPDATE (also of the rowid), DELETE, values of all five storage classes, "
          "constraint failures on the first or a later row; table filter (5 regexps or none) and row-ids-only; a program is non-trivial when it has a "
          "multi-statement request, >= 1 failing statement, >= 1 statement changing several rows and >= 2 kinds of operation delivered; distinct by program text",
     trusted=["SQLite hook semantics (hypothesis in Proofs.C27.trace_of): pre-update hook once per row change before it is made, also when undone later; "
